@@ -141,7 +141,7 @@ def phase_a(chosen, jobs):
 
 
 def check(prop):
-    rc, out = sh(f"/venv/bin/python harness/check.py --property {prop} --tier quick", cwd=ROOT)
+    rc, out = sh(f"VERIF_EVIDENCE_DIR=/tmp/verif_scratch_evidence /venv/bin/python harness/check.py --property {prop} --tier quick", cwd=ROOT)
     v = [l for l in out.splitlines() if l.startswith("VIOLATION")]
     return prop, rc, v
 
